@@ -216,6 +216,23 @@ def run(chk):
         chk.coverage['replayed_cases'] += 1
         chk.count_case(json.dumps([r['A'], r['E'], res['o']], sort_keys=True), nontrivial=not res['pass'])
         tid += 1
+    # assertions that pass only through the permutation allowance: a passing assertion writes nothing
+    for j in range(120 if thorough else 30):
+        base_ = rnd.sample([['a'], ['b'], ['a', '1'], ['a', '2'], [' ', 'a']], rnd.randint(2, 3))
+        perm_ = list(base_)
+        while perm_ == base_:
+            rnd.shuffle(perm_)
+        res_ = {'o': {'ls': False, 'rs': False, 'isub': rnd.random() < 0.3, 'rem': False, 'pats': [], 'mpc': len(base_)}, 'pass': True, 'dem': True,
+                'rdem': False, 'effect': False, 'diffs': [], 'removes': False}
+        r_ = {'A': perm_, 'E': base_}
+        v = rnd.randrange(3)
+        entry = rnd.choice(['string', 'string', 'file', 'files'])
+        ev, msg = run_text_case(ref, wd, tmpd, canary, r_, res_, v, entry, rnd, tid)
+        events.append(ev)
+        detail[tid] = {'A': r_['A'], 'E': r_['E'], 'opts': res_['o'], 'variant': v, 'entry': entry, 'permutation_within_allowance': True,
+                       'actual_lines': tl.lines(r_['A'], v), 'reference_lines': tl.lines(r_['E'], v), 'message': msg[:800]}
+        chk.coverage['replayed_cases'] += 1
+        tid += 1
     # binary
     # every model pair as it is, and behind a common prefix of thousands of identical bytes (MC_TextArtefacts.BinaryShift)
     picked = list(bin_rows if thorough else rnd.sample(bin_rows, 500))
